@@ -253,6 +253,14 @@ func TestVerifC19CLI(t *testing.T) {
 					if tel != "" {
 						y += "telemetry:\n" + tel
 					}
+					switch route["other"] {
+					case "activityOn":
+						y += "activity.stream:\n  enabled: true\n"
+					case "activityOff":
+						y += "activity.stream:\n  enabled: false\n"
+					case "full":
+						y += "activity.stream:\n  enabled: true\n  publish.timeout: 1m\nstreams:\n  compact.enabled: true\n  concurrency.control: true\nbatch.max:\n  messages: 10\nmetadata.cache.max.age: 1m\n"
+					}
 					cf := filepath.Join(dir, "liftbridge.yaml")
 					os.WriteFile(cf, []byte(y), 0o644)
 					args = append(args, "--config", cf)
